@@ -7,8 +7,9 @@ body whose summary acquires one, for every guard that may be live at that site:
   * rank(acquired) < rank(held) (ranks read from LOCK_ORDER_* consts) -> C20.inversion, unless excused by
     the property's escape clause: the gate lock is certainly held at the site AND every site of the same
     program that nests the two classes in the documented order is under the gate as well.
-  * in saito-wasm: every acquisition of a ranked lock is under the gate     -> C20.gate
-    and the gate is never acquired while any guard is held                  -> C20.gate-first
+  * in saito-wasm the gate is never acquired while any guard is held        -> C20.gate-first
+    (ranked acquisitions outside the gate are counted as information: a site that holds nothing
+    while it acquires cannot be on a cycle, and the property does not forbid it)
 """
 from ..locks import GATE, LockAnalysis, LockModel
 from ..report import Finding, Result
@@ -26,11 +27,10 @@ def short(p):
 
 def run(prog, tier, extra_progs=None):
     res = Result("C20", "proof")
-    R_INV = res.rule("C20.inversion", "held guard vs. acquired class: rank(acquired) > rank(held), or gate-excused", floor=0)
+    R_INV = res.rule("C20.inversion", "held guard vs. acquired class: rank(acquired) > rank(held), or gate-excused", floor=340)
     R_RE = res.rule("C20.reacquire", "no lock class is re-acquired (with a write on either side) while a guard of it is live", floor=0)
-    R_GATE = res.rule("C20.gate", "every ranked acquisition in saito-wasm bodies is under the SAITO gate", floor=0)
-    R_FIRST = res.rule("C20.gate-first", "the SAITO gate is acquired with no guard held", floor=0)
-    R_SITES = res.rule("C20.acquire-sites", "lock acquire sites found and classified", floor=0)
+    R_FIRST = res.rule("C20.gate-first", "the SAITO gate is acquired with no guard held", floor=33)
+    R_SITES = res.rule("C20.acquire-sites", "lock acquire sites found and classified", floor=190)
 
     model = LockModel(prog)
     unit_by_name = {u.name: u for u in prog.units}
@@ -51,6 +51,7 @@ def run(prog, tier, extra_progs=None):
     live["saito-core (library API not reached by any program)"] = orphan
 
     findings = {}
+    gate_info = {"ranked_acquisitions_in_wasm_bodies": 0, "of_which_not_under_gate": 0, "ungated_while_holding_a_guard": []}
     unranked = set()
     n_pairs = 0
     acquire_sites = set()
@@ -60,11 +61,24 @@ def run(prog, tier, extra_progs=None):
         is_wasm = name in WASM
         nestings = [n for n in la.nestings() if n["body"] in lv]
         # natural-order nestings not under the gate, per class pair
-        ungated_natural = set()
+        ungated_natural = {}
         for n in nestings:
             rx, ry = model.rank(n["acquired"]), model.rank(n["held"])
             if rx is not None and ry is not None and rx > ry and GATE not in n["under"]:
-                ungated_natural.add((n["held"], n["acquired"]))
+                ungated_natural.setdefault(n["held"], set()).add(n["acquired"])
+
+        def ungated_path(a, b):
+            """is there a chain of un-gated documented-order nestings a -> ... -> b ?"""
+            seen, stack = set(), [a]
+            while stack:
+                c = stack.pop()
+                if c == b:
+                    return True
+                if c in seen:
+                    continue
+                seen.add(c)
+                stack.extend(ungated_natural.get(c, ()))
+            return False
         stats = {"bodies_live": len(lv), "nestings": len(nestings), "inversions_excused_by_gate": 0, "direct_acquire_sites": 0}
         for p in lv:
             b = la.cg.bodies.get(p)
@@ -87,12 +101,13 @@ def run(prog, tier, extra_progs=None):
                             findings.setdefault(key, Finding(R_FIRST, key,
                                 "%s acquires the SAITO gate while holding %s" % (short(p), sorted(set(h[0] for h in held))), b.loc(bb)))
                     elif model.rank(cls) is not None:
-                        res.instance(R_GATE)
+                        # information only: single-lock entry points outside the gate hold nothing while they
+                        # acquire, so they cannot be part of a cycle; the property does not forbid them
+                        gate_info["ranked_acquisitions_in_wasm_bodies"] += 1
                         if GATE not in must:
-                            key = "C20.gate|%s|%s" % (p, cls)
-                            findings.setdefault(key, Finding(R_GATE, key,
-                                "%s acquires %s without the SAITO gate certainly held" % (short(p), cls), b.loc(bb),
-                                {"certainly_held": sorted(must)}))
+                            gate_info["of_which_not_under_gate"] += 1
+                            if model.held(b, bb):
+                                gate_info["ungated_while_holding_a_guard"].append("%s at %s" % (short(p), b.loc(bb)))
         for n in nestings:
             x, y = n["acquired"], n["held"]
             rx, ry = model.rank(x), model.rank(y)
@@ -113,7 +128,7 @@ def run(prog, tier, extra_progs=None):
             res.instance(R_INV)
             n_pairs += 1
             if rx < ry:
-                excused = GATE in n["under"] and (x, y) not in ungated_natural
+                excused = GATE in n["under"] and not ungated_path(x, y)
                 if excused:
                     stats["inversions_excused_by_gate"] += 1
                     res.sample({"program": name, "site": n["loc"], "body": short(n["body"]), "holds": y, "acquires": x,
@@ -144,7 +159,8 @@ def run(prog, tier, extra_progs=None):
     for f in sorted(findings.values(), key=lambda f: (f.loc or "", f.key)):
         res.add(f)
 
-    res.extra["programs"] = per_program
+    res.extra["programs_analysed"] = per_program
+    res.extra["wasm_gate_info"] = gate_info
     res.extra["ranks"] = model.ranks
     res.extra["unranked_lock_classes_seen"] = sorted(unranked)
     res.extra["config_types"] = sorted(model.config_types)
